@@ -153,7 +153,8 @@ def judge_grid_text(grid, fmt):
     fn = {"xlsx": sheets.render_xlsx, "ods": sheets.render_ods, "xls": sheets.render_xls}[fmt]
     try:
         # every second ods grid carries cell comments (reported via sheet.annotations, not part of the sheet text)
-        kw = {"opts": {"comments": True}} if fmt == "ods" and len(grid["sheets"][0]["rows"]) % 2 == 0 else {}
+        # ... and every second one keeps its rows in nested row groups (outline levels)
+        kw = {"opts": {"comments": len(grid["sheets"][0]["rows"]) % 2 == 0, "row_groups": len(grid["sheets"][0]["rows"][0]) % 2 == 0}} if fmt == "ods" else {}
         res = list(get_extractor("x." + fmt)(io.BytesIO(fn(grid, **kw)), "x." + fmt))
         text = "\n".join(r.get_full_text() for r in res)
     except Exception as e:  # noqa
@@ -174,7 +175,7 @@ def grid_shard(ctx: Ctx, fmt: str):
                   sample={"format": fmt, "sheets": [[len(s["rows"]), len(s["rows"][0]) if s["rows"] else 0] for s in grid["sheets"]]} if part.evaluations % 41 == 0 else None, fmt=fmt, leg="grid")
         return [Violation(c, f"C02:{fmt}:{c}", f"[{fmt} grid] {d}", {"kind": "grid", "format": fmt, "model": grid}) for c, d in fails[:1]]
     # plain string headers: the header conventions of xlsx/xls tables (C13's listed findings) are about get_table(), not about the text
-    hyp_search(ctx, f"c02-grid-{fmt}", sheets.grids(fmt, headers="plain"), ev, ctx.n(300, 5000), part)
+    hyp_search(ctx, f"c02-grid-{fmt}", sheets.grids(fmt, headers="plain", single_row_ok=True), ev, ctx.n(300, 5000), part)
     return part
 
 
